@@ -55,6 +55,51 @@ def make_epoch_workload(seed):
     r = random.Random("epoch/%d" % seed)
     lines = ["storage 61", "bg 1", "auto_session 0"]
     pre = {}
+    if r.random() < 0.35:
+        # retired NODES: borders that are emptied and unlinked (and an interior node that collapses)
+        # while another session stays open across several gc passes. Inline values, so that the
+        # removes retire no value (the value side of the per-session retire state stays old).
+        n = r.choice([16, 16, 32])
+        keep = r.randrange(8)
+        inline = r.random() < 0.7
+        for i in range(n):
+            k = b"k%02d" % i
+            if inline:
+                lines.append("pre puti %s %x" % (hx(k), 0x5000 + 16 * i))
+            else:
+                lines.append("pre put %s %s" % (hx(k), hx(b"value_of_" + k)))
+        live = []
+        for i in range(n):
+            k = b"k%02d" % i
+            if i % 8 == keep:
+                live.append(k)
+                pre[k] = ("i%016x" % (0x5000 + 16 * i)) if inline else (b"value_of_" + k).hex()
+            else:
+                lines.append("pre remove %s" % hx(k))
+        nthreads = r.choice([2, 2, 3])
+        for t in range(nthreads):
+            lines.append("thread %d" % t)
+            if t == 0:
+                # the session that must keep the retired nodes alive
+                lines.append("op enter")
+                lines.append("op scan - F - F 0 0")
+                lines.append("op sleep_epochs %d" % r.choice([2, 3, 4]))
+                lines.append("op scan - F - F 0 0")
+                lines.append("op leave")
+            else:
+                if r.random() < 0.5:
+                    lines.append("op sleep_epochs %d" % r.choice([1, 2]))
+                lines.append("op enter")
+                for k in r.sample(live, min(len(live), r.choice([1, 2]))):
+                    lines.append("op remove %s" % hx(k))
+                if r.random() < 0.5:
+                    lines.append("op sleep_epochs %d" % r.choice([1, 2, 3]))
+                lines.append("op leave")
+                if r.random() < 0.5:
+                    lines.append("op enter")
+                    lines.append("op sleep_epochs %d" % r.choice([1, 2]))
+                    lines.append("op leave")
+        return "\n".join(lines) + "\n", pre, {"shape": "epoch/nodes", "threads": nthreads, "kind": "epoch"}
     keys = [b"k%d" % i for i in range(r.choice([1, 2, 4]))] + [b"prefix__long%d" % i for i in range(r.choice([0, 1]))]
     for k in keys:
         v = b"value_of_" + k
@@ -102,8 +147,15 @@ def make_session_workload(seed, capacity):
         lines.append("thread %d" % t)
         for _ in range(r.choice([1, 2, 3])):
             lines.append("op enter")
+            if r.random() < 0.5:
+                lines.append("op probe")
             if r.random() < 0.85:
                 lines.append("op leave")
+    # hold a thread inside enter (at its epoch load / begin-epoch store / running CAS) until the
+    # free-running epoch thread has advanced the epoch
+    for _ in range(r.choice([0, 1, 1, 2])):
+        f, kd = r.choice([(8, 0), (8, 0), (7, 1), (6, 2)])
+        lines.append("stall %d %d %d %d %d" % (r.randrange(nthreads), f, kd, r.choice([1, 2, 3]), r.choice([1, 2])))
     return "\n".join(lines) + "\n", {}, {"shape": "sessions", "threads": nthreads, "kind": "session"}
 
 
@@ -187,6 +239,14 @@ def make_overwrite_workload(seed):
     live = sorted(pre)
     hot = r.sample(live, min(len(live), r.choice([1, 2])))
     lens = [1, 2, 8, 9, 40, 200, 1000]
+    same_len = r.random() < 0.4      # every overwrite has the length of the value it replaces (in-place temptation)
+    if same_len:
+        ln0 = r.choice([4, 9, 40, 200])
+        lens = [ln0]
+        for k in hot:
+            v = (b"pre:" + b"p" * ln0)[:ln0]
+            lines.append("pre put %s %s" % (hx(k), hx(v)))
+            pre[k] = v.hex()
     nthreads = r.choice([2, 3, 4])
     for t in range(nthreads):
         lines.append("thread %d" % t)
@@ -201,6 +261,9 @@ def make_overwrite_workload(seed):
                 lines.append("op get %s" % hx(k))
             else:
                 lines.append("op scan %s I %s I 0 0" % (hx(k), hx(k)))
+        if not writer:
+            # everything handed out to this session so far must still read the same
+            lines.append("op hold")
     return "\n".join(lines) + "\n", pre, {"shape": shape, "threads": nthreads, "kind": "overwrite"}
 
 
@@ -210,7 +273,38 @@ def make_scanedge_workload(seed):
     or refill a node that has just been emptied"""
     r = random.Random("scanedge/%d" % seed)
     scen = r.choice(["right_edge", "right_edge", "left_edge", "middle", "layer_root_split", "layer_root_delete",
-                     "layer_drain", "refill", "absorb", "absorb"])
+                     "layer_drain", "refill", "absorb", "absorb", "link_border", "link_border"])
+    if scen == "link_border":
+        # a border that holds one value and a link: the value is removed and the border's version
+        # bumped (an out-of-range insert) while the scan is inside the next layer; the re-read of the
+        # border then contributes nothing of its own, and a later in-range insert into it must
+        # still invalidate the collected node set
+        pfx = b"LLLLLLLL"
+        nsub = r.choice([1, 5, 20, 40])
+        keys = [b"A"] + [pfx + b"s%02d" % i for i in range(nsub)]
+        if r.random() < 0.3:
+            keys.append(b"Y")
+        lines = ["storage 61", "bg 0"]
+        pre = {}
+        for k in keys:
+            lines.append("pre put %s %s" % (hx(k), hx(b"p" + k[-3:])))
+            pre[k] = (b"p" + k[-3:]).hex()
+        nthreads = r.choice([2, 2, 3])
+        lines.append("thread 0")
+        for i in range(r.choice([1, 2])):
+            if r.random() < 0.6:
+                lines.append("op scan %s I %s I 0 0" % (hx(b"A"), hx(b"M")))
+            else:
+                lines.append("op scan - F - F 0 0")
+        lines.append("thread 1")
+        lines.append("op remove %s" % hx(b"A"))
+        lines.append("op put %s %s 0" % (hx(r.choice([b"Z", b"N", b"Q1"])), hx(b"1out")))
+        lines.append("op put %s %s 0" % (hx(r.choice([b"B", b"C", b"A1"])), hx(b"1in")))
+        if nthreads == 3:
+            lines.append("thread 2")
+            for i in range(r.choice([1, 2])):
+                lines.append("op put %s %s 0" % (hx(r.choice([b"D", b"E%d" % i, pfx + b"t%d" % i])), hx(b"2x%d" % i)))
+        return "\n".join(lines) + "\n", pre, {"shape": "scanedge/link_border", "threads": nthreads, "kind": "scanedge"}
     lines = ["storage 61", "bg 0"]
     pre = {}
     pfx = b"prefix__"
@@ -290,6 +384,67 @@ def make_scanedge_workload(seed):
                 else:
                     lines.append("op get %s" % hx(r.choice(live)))
     return "\n".join(lines) + "\n", pre, {"shape": "scanedge/" + scen, "threads": nthreads, "kind": "scanedge"}
+
+
+def absorb_key(n):
+    """model key (Nat) -> real key: kNN for multiples of 10, kNNy for NN*10+5"""
+    return b"k%02d" % (n // 10) + (b"y" if n % 10 == 5 else b"")
+
+
+def absorb_num(k):
+    return int(k[1:3]) * 10 + (5 if k.endswith(b"y") else 0)
+
+
+def make_absorb_scenario(seed):
+    """one scenario for the Proto/Absorb correspondence: (scheddrv workload, pre, model lines).
+    16 or 32 ascending keys give borders of 8 keys with separators k08, k16, k24 under one interior
+    node; thinned to 1-2 keys per border; writers empty one border (it is unlinked and its range
+    absorbed) and insert keys around it; one forward scan."""
+    r = random.Random("absorb/%d" % seed)
+    n = r.choice([16, 16, 32])
+    nleaf = n // 8
+    keep = sorted(r.sample(range(8), r.choice([1, 1, 2])))
+    lines = ["storage 61", "bg 0"]
+    pre = {}
+    for i in range(n):
+        lines.append("pre put %s %s" % (hx(b"k%02d" % i), hx(b"p%02d" % i)))
+    model = []
+    for j in range(nleaf):
+        ks = [8 * j + x for x in keep]
+        model.append("leaf %d %d %s" % (j, 0 if j == 0 else 80 * j, " ".join(str(10 * k) for k in ks)))
+    for i in range(n):
+        if i % 8 in keep:
+            pre[b"k%02d" % i] = (b"p%02d" % i).hex()
+        else:
+            lines.append("pre remove %s" % hx(b"k%02d" % i))
+    vj = r.randrange(nleaf)                       # the border that is emptied
+    victims = [10 * (8 * vj + x) for x in keep]
+    if r.random() < 0.5:
+        victims.reverse()
+    lo_v, hi_v = min(victims), max(victims)
+    fresh = [lo_v - 5 if lo_v >= 10 else lo_v + 5, lo_v + 5, hi_v + 5]
+    w1 = ["rem:%d" % v for v in victims] + ["ins:%d" % k for k in r.sample(fresh, r.choice([1, 2]))]
+    writers = [w1]
+    if r.random() < 0.5:
+        oj = r.randrange(nleaf)
+        ok = 10 * (8 * oj + r.choice(keep))
+        writers.append(r.choice([["rem:%d" % ok], ["ins:%d" % (ok + 5)], ["rem:%d" % ok, "ins:%d" % ok]]))
+    if r.random() < 0.7:
+        a, b = 0, 10 * n + 9
+        scan = "op scan - F - F 0 0"
+    else:
+        a = 10 * r.randrange(0, n // 2)
+        b = 10 * r.randrange(n // 2, n)
+        scan = "op scan %s I %s I 0 0" % (hx(absorb_key(a)), hx(absorb_key(b)))
+    lines += ["thread 0", scan]
+    for t, w in enumerate(writers, 1):
+        lines.append("thread %d" % t)
+        for o in w:
+            kind, _, num = o.partition(":")
+            k = absorb_key(int(num))
+            lines.append("op remove %s" % hx(k) if kind == "rem" else "op put %s %s 0" % (hx(k), hx(b"%dw%s" % (t, num.encode()))))
+    model += ["scan %d %d" % (a, b)] + ["writer " + " ".join(w) for w in writers] + ["fix 1", "go"]
+    return "\n".join(lines) + "\n", pre, model
 
 
 def make_collapse_workload(seed):
